@@ -218,7 +218,17 @@ func (f *FBaseProcessorFunction) SendError(fctx FContext, oprot *FProtocol, kind
 
 func (f *FBaseProcessorFunction) sendError(ctx context.Context, fctx FContext, oprot *FProtocol, kind int32, method, message string) error {
 	err := thrift.NewTApplicationException(kind, message)
-	oprot.WriteResponseHeader(fctx)
+	if werr := oprot.WriteResponseHeader(fctx); werr != nil && IsErrTooLarge(werr) {
+		// The response headers alone exceed the output limit. Without a
+		// header block the client cannot route the reply and the caller is
+		// left to time out: send the error with the headers routing needs.
+		slim := NewFContext(fctx.CorrelationID())
+		if opid, ok := fctx.ResponseHeader(opIDHeader); ok {
+			slim.AddResponseHeader(opIDHeader, opid)
+		}
+		slim.AddResponseHeader(cidHeader, fctx.CorrelationID())
+		oprot.WriteResponseHeader(slim)
+	}
 	oprot.WriteMessageBegin(ctx, method, thrift.EXCEPTION, 0)
 	err.Write(ctx, oprot)
 	oprot.WriteMessageEnd(ctx)
